@@ -474,7 +474,9 @@ def run(repo: str, tier: str, seed: int, replay_dir=None, write_ev=True, jobs=No
         from . import c10 as _c10
 
         A_keys = _c10.OK_KEYS + _c10.FAIL_KEYS
-        B_keys = _c10.OK_KEYS
+        # failing programs are observers too (a leak can make a program convertible that is not
+        # convertible in a fresh process), except the 2 000-statement one (slow)
+        B_keys = _c10.OK_KEYS + [k for k in _c10.FAIL_KEYS if k != "fail:fail_big"]
         pair_models = [None] + [dict(m) for m in P["pair_models"]]
         pair_hist = []
         for m in pair_models:
